@@ -254,6 +254,24 @@ mut("c15-foreach-select-default-poll", [(L, LFE_FULL, SEL_FE.replace("""	select 
 		}
 	}"""))], [], ["C15"], note="PRESERVING: busy-polls the done channel with select/default")
 
+CTX_FE = SEL_FE.replace("""	select {
+	case <-done:
+	}""", """	ctx, cancel := context.WithTimeout(context.Background(), 5*time.Second)
+	defer cancel()
+	select {
+	case <-done:
+	case <-ctx.Done():
+	}""")
+mut("c15-foreach-context-timeout", [(L, LFE_FULL, CTX_FE), (L, '	"bytes"\n', '	"bytes"\n	"context"\n'), (L, '	"sync"\n)', '	"sync"\n	"time"\n)')], ["C15"], note="waits under context.WithTimeout(5s): returns early when a callback takes longer")
+mut("c15-foreach-context-cancel-after-wait", [(L, LFE_FULL, SEL_FE.replace("""	select {
+	case <-done:
+	}""", """	ctx, cancel := context.WithCancel(context.Background())
+	go func() {
+		<-done
+		cancel()
+	}()
+	<-ctx.Done()""")), (L, '	"bytes"\n', '	"bytes"\n	"context"\n')], [], ["C15"], note="PRESERVING: a context cancelled once all callbacks are done, caller waits on ctx.Done()")
+
 # ---------------------------------------------------------------- C04
 mut("c04-accept-eof-after-string", [(P, """	// No matching rule - error
 	return nil, 0, fmt.Errorf("not a valid JSON - unexpected end of input")
